@@ -50,4 +50,116 @@ theorem SnapOk_snoc (c : Cfg) (e0 : Nat → Bool) (δ : Nat) (E : List (Nat × N
   obtain ⟨E1, E2, hE, h1⟩ := h
   exact ⟨E1, E2 ++ [p], by rw [hE, List.append_assoc], h1⟩
 
+theorem isD_notice (c : Cfg) (v : Nat) : isD c (v, bOf c v) = false := by simp [isD]
+
+theorem isD_data (c : Cfg) (v j : Nat) (h : j < bOf c v) : isD c (v, j) = true := by simp [isD, h]
+
+/-- Consuming the end-of-shard notice of worker `v` (it carries `⟨b_v, true⟩`). -/
+theorem KS_notice (c : Cfg) (e0 : Nat → Bool) (δ : Nat) (ws : List WSt) (sn : Snap) (y : Nat)
+    (E : List (Nat × Nat)) (v : Nat) (h : KS c e0 δ ws sn y E) (hv : v < c.W) (hpos : posE c E v = bOf c v) :
+    KS c e0 δ (ws.set v ⟨bOf c v, true⟩) sn y (E ++ [(v, bOf c v)]) := by
+  have hnd := isD_notice c v
+  refine ⟨by rw [List.length_set]; exact h.wl, ?_, ?_, ?_, SnapOk_snoc c e0 δ E _ sn h.sn⟩
+  · intro w hw
+    by_cases hwv : w = v
+    · subst hwv
+      left
+      rw [List.getElem?_set_self (by rw [h.wl]; exact hw)]
+      simp only [idealE, posE_snoc, endE_snoc, hnd, hpos]
+      simp
+    · have hvw : ¬ v = w := fun hh => hwv hh.symm
+      have e1 : posE c (E ++ [(v, bOf c v)]) w = posE c E w := by rw [posE_snoc]; simp [hvw]
+      have e2 : endE c (E ++ [(v, bOf c v)]) w = endE c E w := by rw [endE_snoc]; simp [hvw]
+      have e3 : sinceE c (E ++ [(v, bOf c v)]) w = sinceE c E w := by rw [sinceE_snoc]; simp [hvw, hnd]
+      rcases h.ok w hw with hf | ⟨hs1, hs2⟩
+      · left
+        rw [List.getElem?_set_ne (fun hh => hwv hh.symm)]
+        simp only [idealE, e1, e2]
+        exact hf
+      · right
+        exact ⟨by rw [e2]; exact hs1, by rw [e3]; exact hs2⟩
+  · rw [ndE_snoc, hnd]; simpa using h.yc
+  · intro w hw
+    have := h.e0ok w hw
+    rw [posE_snoc]; omega
+
+/-- What a data result of worker `v`'s task number `j` dispatched at `d` carries. -/
+def deltaOf (c : Cfg) (d j : Nat) : Option WSt := if flagW c d then some ⟨j + 1, false⟩ else none
+
+/-- Yielding the batch of worker `v`'s data task number `j`, dispatched at `_num_yielded = d`. -/
+theorem KS_data (c : Cfg) (e0 : Nat → Bool) (δ : Nat) (ws : List WSt) (sn : Snap) (y : Nat)
+    (E : List (Nat × Nat)) (v j d : Nat) (h : KS c e0 δ ws sn y E) (hv : v < c.W) (hj : j < bOf c v)
+    (hpos : posE c E v = j) (hend : endE c E v = false) (hd1 : d ≤ y) (hd2 : y + 1 ≤ d + 1 + c.W * c.P) :
+    KS c e0 δ (applyDelta ws v (deltaOf c d j)) sn (y + 1) (E ++ [(v, j)]) := by
+  have hdt := isD_data c v j hj
+  have hwl : (applyDelta ws v (deltaOf c d j)).length = c.W := by
+    unfold applyDelta deltaOf
+    split <;> simp_all [h.wl]
+  have he0 : e0 v = false := by
+    cases hh : e0 v with
+    | false => rfl
+    | true => have := h.e0ok v hh; omega
+  have hjb : (j == bOf c v) = false := by simp; omega
+  refine ⟨hwl, ?_, ?_, ?_, SnapOk_snoc c e0 δ E _ sn h.sn⟩
+  · intro w hw
+    by_cases hwv : w = v
+    · subst hwv
+      by_cases hf : flagW c d = true
+      · left
+        simp only [deltaOf, hf, if_true, applyDelta]
+        rw [List.getElem?_set_self (by rw [h.wl]; exact hw)]
+        simp only [idealE, posE_snoc, endE_snoc, hdt, hpos, hend, he0, hjb]
+        simp
+      · right
+        have hf' : flagW c d = false := by simpa using hf
+        refine ⟨by rw [endE_snoc, hend, hjb]; simp, d, hf', ?_, ?_⟩
+        · rw [sinceE_snoc]; simp; omega
+        · rw [sinceE_snoc]; simp; omega
+    · have hvw : ¬ v = w := fun hh => hwv hh.symm
+      have e1 : posE c (E ++ [(v, j)]) w = posE c E w := by rw [posE_snoc]; simp [hvw]
+      have e2 : endE c (E ++ [(v, j)]) w = endE c E w := by rw [endE_snoc]; simp [hvw]
+      have e3 : sinceE c (E ++ [(v, j)]) w = 1 + sinceE c E w := by rw [sinceE_snoc]; simp [hvw, hdt]
+      have e4 : (applyDelta ws v (deltaOf c d j))[w]? = ws[w]? := by
+        unfold applyDelta deltaOf
+        split
+        · rfl
+        · rw [List.getElem?_set_ne (fun hh => hwv hh.symm)]
+      rcases h.ok w hw with hfr | ⟨hs1, d', hs2, hs3, hs4⟩
+      · left
+        rw [e4]
+        simp only [idealE, e1, e2]
+        exact hfr
+      · right
+        exact ⟨by rw [e2]; exact hs1, d', hs2, by rw [e3]; omega, by rw [e3]; omega⟩
+  · rw [ndE_snoc, hdt]; have := h.yc; simp; omega
+  · intro w hw
+    have := h.e0ok w hw
+    rw [posE_snoc]; omega
+
+/-- At a snapshot boundary nobody is stale. -/
+theorem KS_boundary (c : Cfg) (e0 : Nat → Bool) (δ : Nat) (ws : List WSt) (sn : Snap) (y : Nat)
+    (E R : List (Nat × Nat)) (h : KS c e0 δ ws sn y E) (hE : E ++ R = liveFrom c 0 0) (hI : c.interval ≠ 0)
+    (hy : y % c.interval = 0) : ws = (List.range c.W).map (idealE c e0 E) := by
+  apply List.ext_getElem?
+  intro w
+  by_cases hw : w < c.W
+  · rw [List.getElem?_map, List.getElem?_range hw]
+    simp only [Option.map_some]
+    rcases h.ok w hw with hf | ⟨hs1, d, hs2, hs3, hs4⟩
+    · exact hf
+    · exfalso
+      have hs := since_lt c E R w hE hw hs1
+      have := window_flag c.interval d y (c.W * c.P + c.W) hI hy (by omega) (by omega)
+      simp only [flagW, hI, ne_eq, not_false_eq_true, decide_true, Bool.true_and, decide_eq_false_iff_not] at hs2
+      omega
+  · rw [List.getElem?_eq_none (by rw [h.wl]; omega), List.getElem?_eq_none (by simp; omega)]
+
+/-- `_take_snapshot` at a boundary stores the ideal state after `E`. -/
+theorem KS_snap (c : Cfg) (e0 : Nat → Bool) (δ : Nat) (ws : List WSt) (sn : Snap) (y x : Nat)
+    (E0 R : List (Nat × Nat)) (v j : Nat) (h : KS c e0 δ ws sn y (E0 ++ [(v, j)])) (hj : j < bOf c v)
+    (hE : (E0 ++ [(v, j)]) ++ R = liveFrom c 0 0) (hI : c.interval ≠ 0) (hy : y % c.interval = 0) :
+    KS c e0 δ ws ⟨y, v, x, ws⟩ y (E0 ++ [(v, j)]) := by
+  refine ⟨h.wl, h.ok, h.yc, h.e0ok, _, [], by simp, ?_, h.yc, Or.inr ⟨E0, j, rfl, hj⟩⟩
+  exact KS_boundary c e0 δ ws sn y _ R h hE hI hy
+
 end TDV.MPRI
